@@ -10,6 +10,7 @@
 //! `C20.writeinv …` same line format as `C20.write`, for INVALID diagrams (a decision node whose variable has no name;
 //! constructible through `Bdd::from_string`, which does not validate): the sink's error may come before the panic.
 //! `C20.pieces <bdd> <names> <pruned> => <ok|err|panic> <buffer lengths of the successive write calls>` (accept-all sink).
+//! `C20.budget <bdd> <names> <pruned> <budget>` same line format as `C20.write`; the sink accepts `budget` bytes in total.
 //! `C20.big <n> <total> <seed> <pruned> => …` one hand-built valid diagram with `total` nodes; the text is digested and
 //! read back by the harness's own line reader (see `read_back`), the observations are counts.
 //! Names travel hex-encoded (`h<utf8 bytes>`, lists joined by `,`, the empty list is `~`).
@@ -149,6 +150,37 @@ fn read_back(text: &str, t: &[(usize, usize, usize)], names: &[String], pruned: 
     ]
 }
 
+/// a sink with a byte budget: short write where the budget ends, afterwards a hard error on every call
+struct BudgetSink { out: Vec<u8>, budget: usize }
+impl std::io::Write for BudgetSink {
+    fn write(&mut self, buf: &[u8]) -> std::io::Result<usize> {
+        let room = self.budget - self.out.len();
+        if room == 0 && !buf.is_empty() { return Err(std::io::Error::new(std::io::ErrorKind::Other, "budget exhausted")); }
+        let n = room.min(buf.len());
+        self.out.extend_from_slice(&buf[..n]);
+        Ok(n)
+    }
+    fn flush(&mut self) -> std::io::Result<()> { Ok(()) }
+}
+
+/// a name of exactly `len` bytes: `kind` 0 = ASCII, 1 = two-byte characters, 2 = four-byte characters (the ASCII
+/// padding that makes up the length comes FIRST, so the multi-byte characters straddle every offset as `len` varies)
+fn sized_name(len: usize, kind: usize) -> String {
+    let (ch, w) = match kind { 0 => ('n', 1), 1 => ('\u{e9}', 2), _ => ('\u{1f600}', 4) };
+    let mut s = String::with_capacity(len);
+    for i in 0..(len % w) { s.push((b'a' + (i % 26) as u8) as char); }
+    for i in 0..(len / w) { if w == 1 { s.push((b'a' + ((i * 7 + len) % 26) as u8) as char) } else { s.push(ch) } }
+    debug_assert!(s.len() == len);
+    s
+}
+
+/// conjunction of `n` positive literals as a hand-built chain: node ids 2 … n+1, the root (variable 0) is n+1
+fn chain(n: usize) -> String {
+    let mut nodes = vec![(n, 0, 0), (n, 1, 1)];
+    for i in (0..n).rev() { let root = nodes.len() - 1; nodes.push((i, 0, root)); }
+    fmt_triples(&nodes)
+}
+
 /// a sink that accepts everything and records the length of every buffer it is offered
 struct Recorder { calls: Vec<usize> }
 impl std::io::Write for Recorder {
@@ -196,6 +228,29 @@ pub fn run(key: &str, a: &[String], out: &mut Out) {
             if key == "C20.write" && text.is_none() { out.case(key, a, &[s("panic"), s("panic"), s("~")]); return; }
             let len = text.as_ref().map(|t| t.len()).unwrap_or(64 * bdd.size() + 256);
             let mut sink = SWriter::new(&parse_sink_script(&a[3], len));
+            let res = catch(|| bdd.write_as_dot_string(&mut sink, &vs, pruned));
+            let status = match &res { Some(Ok(())) => "ok", Some(Err(_)) => "err", None => "panic" };
+            let got = match &text {
+                Some(t) if sink.out == t.as_bytes() => s("="),
+                _ => format!("x{}", hex(&sink.out)),
+            };
+            let f1 = match &text { Some(t) => format!("x{}", hex(t.as_bytes())), None => s("panic") };
+            out.case(key, a, &[f1, s(status), got]);
+        }
+        "C20.budget" => {
+            // bdd names pruned budget => x<text> <ok|err|panic> <=|x<sink bytes>>: a sink that accepts `budget` bytes in total
+            // (a short write where the budget ends) and then fails every `write` with a hard error
+            let bdd = Bdd::from_string(&a[0]);
+            let names = dec_names(&a[1]);
+            let pruned = a[2] == "1";
+            let budget: usize = a[3].parse().unwrap();
+            let refs: Vec<&str> = names.iter().map(|x| x.as_str()).collect();
+            let vs = match catch(|| BddVariableSet::new(&refs)) {
+                Some(vs) => vs,
+                None => { out.case(key, a, &[s("badset")]); return; }
+            };
+            let text = catch(|| bdd.to_dot_string(&vs, pruned));
+            let mut sink = BudgetSink { out: vec![], budget };
             let res = catch(|| bdd.write_as_dot_string(&mut sink, &vs, pruned));
             let status = match &res { Some(Ok(())) => "ok", Some(Err(_)) => "err", None => "panic" };
             let got = match &text {
@@ -365,6 +420,61 @@ pub fn gen(tier: Tier, rng: &mut Rng64, out: &mut Out) {
             run("C20.write", &[big.clone(), enc_names(&names), s("0"), s(sc)], out);
         }
         run("C20.write", &[big.clone(), enc_names(&names), s("1"), s("*4096")], out);
+    }
+    // --- NAME LENGTHS: names of 1 … 65 536 bytes (every length in 190 … 260), ASCII and multi-byte, on a literal and on
+    //     small diagrams (one-, two- and three-digit node ids), both pruning modes, `to_dot_string` and
+    //     `write_as_dot_string` into accepting / chunking / failing sinks
+    {
+        let mut lens: Vec<usize> = vec![1, 2, 63, 64, 65, 127, 128, 129];
+        lens.extend(190..=260);
+        lens.extend([511, 512, 513, 1023, 1024, 1025, 4095, 4096, 4097, 8191, 8192, 8193, 65536]);
+        let lit = "|1,0,0|1,1,1|0,0,1|";
+        let xor2 = "|2,0,0|2,1,1|1,1,0|1,0,1|0,3,2|";
+        let (c12, c120) = (chain(12), chain(120));
+        for (li, len) in lens.iter().enumerate() {
+            let window = (190..=260).contains(len);
+            for kind in 0..3usize {
+                if *len < 4 && kind == 2 { continue; }
+                if !thorough && *len == 65536 && kind == 1 { continue; }
+                let name = sized_name(*len, kind);
+                both(lit, &[name.clone()], out);
+                if window || *len <= 129 {
+                    let names = if (li + kind) % 2 == 0 { vec![name.clone(), s("B")] } else { vec![s("A"), name.clone()] };
+                    both(xor2, &names, out);
+                }
+                if window && (kind == 0 || thorough) {
+                    let mut n12: Vec<String> = (0..12).map(|i| format!("n{}", i)).collect(); n12[0] = name.clone();
+                    both(&c12, &n12, out);
+                    if li % 3 == 0 || thorough {
+                        let mut n120: Vec<String> = (0..120).map(|i| format!("n{}", i)).collect(); n120[0] = name.clone();
+                        both(&c120, &n120, out);
+                    }
+                }
+                if !window || li % 5 == 0 || thorough {
+                    for sc in ["~", "*255", "*256", "*4096", "i.*7", "g4096.g4096.g4096.e", "g100000.g100000.g100000.g100000.g100000.g3.e"] {
+                        run("C20.write", &[s(lit), enc_names(&[name.clone()]), s("0"), s(sc)], out);
+                    }
+                    run("C20.write", &[s(lit), enc_names(&[name.clone()]), s("1"), s("*256")], out);
+                }
+            }
+        }
+        // texts of total size just below / at / above 8 192 and 65 536 bytes (and short ones) into sinks whose byte budget
+        // ends in the last bytes (the failure comes in the LAST chunk, whatever the chunking), in the middle, or not at all
+        for p in ["0", "1"] {
+            let pruned = p == "1";
+            let vs1 = BddVariableSet::new(&["x"]);
+            let base = Bdd::from_string(lit).to_dot_string(&vs1, pruned).len() - 1;
+            for total in [base + 1, base + 40, 4096, 8191, 8192, 8193, 16384, 65535, 65536, 65537] {
+                if total <= base { continue; }
+                for kind in [0usize, 2] {
+                    if kind == 2 && !(thorough || total == 8192 || total == 65536) { continue; }
+                    let name = sized_name(total - base, kind);
+                    let mut budgets = vec![0usize, 1, total / 2, total - 2, total - 1, total, total + 1];
+                    if total > 8192 { budgets.extend([total - 8192, total - 8191, total - 4097, total - 4096, 8192]); }
+                    for b in budgets { run("C20.budget", &[s(lit), enc_names(&[name.clone()]), s(p), b.to_string()], out); }
+                }
+            }
+        }
     }
     // --- one big diagram (node ids with six digits), both pruning modes; thorough: a few more sizes
     {
